@@ -237,7 +237,7 @@ func hashMapEntries[K, V comparable](d *drv, m *hashmap.Map[K, V], ck *codec[K],
 func constructMap[K, V comparable](d *drv, ck *codec[K], cv *codec[V]) {
 	key := func(k K) int { return dec(d, ck, k) }
 	val := func(v V) int { return dec(d, cv, v) }
-	kcmp := ck.cmpFn(d.cfg.KRev)
+	kcmp := ck.cmpCfg(d.cfg.KRev, d.cfg.KTie)
 	switch d.cfg.Kind {
 	case "HashMap":
 		m := hashmap.New[K, V]()
@@ -301,7 +301,7 @@ func constructMap[K, V comparable](d *drv, ck *codec[K], cv *codec[V]) {
 			return "HBM" + fmt.Sprint(hashMapEntries(d, m.VerifInner(), ck, cv)) + fmt.Sprint(hashMapEntries(d, m.VerifInverse(), cv, ck))
 		}
 	case "TreeBidiMap":
-		m := treebidimap.NewWith[K, V](kcmp, cv.cmpFn(d.cfg.VRev))
+		m := treebidimap.NewWith[K, V](kcmp, cv.cmpCfg(d.cfg.VRev, d.cfg.VTie))
 		bindMapCommon[K, V](d, m, ck, cv)
 		d.getKey = func(v int) (int, bool) {
 			k, ok := m.GetKey(cv.enc(v))
